@@ -36,6 +36,10 @@ def cell(kind, tl, tr, L, R):
         return [tag('#if t', True), text('B' + L), T('else', True), text(R + 'E', live=False), tag('/if', True)]
     if kind == 'elsechain':
         return [tag('#if t', True), text('B' + L), T('else if u', True), text(R + 'E', live=False), tag('/if', True)]
+    if kind == 'elselive':       # the else branch is the one rendered (f is absent from the data)
+        return [tag('#if f', True), text('B' + L, live=False), T('else', True), text(R + 'E'), tag('/if', True)]
+    if kind == 'elsechainlive':
+        return [tag('#if f', True), text('B' + L, live=False), T('else if u', True), text(R + 'E'), tag('/if', True)]
     if kind == 'eachopen':
         return [text(L), T('#each l', True), text(R + 'B'), tag('/each', True)]
     if kind == 'comment':
@@ -64,7 +68,7 @@ def cell(kind, tl, tr, L, R):
     raise ValueError(kind)
 
 KINDS = ['value', 'html', 'helper', 'open', 'close', 'else', 'elsechain', 'eachopen', 'comment', 'comment2',
-         'partial', 'inlineopen', 'inlineclose', 'pblockopen', 'pblockclose', 'rawopen', 'rawclose', 'eachbp', 'withbp']
+         'partial', 'inlineopen', 'inlineclose', 'pblockopen', 'pblockclose', 'rawopen', 'rawclose', 'eachbp', 'withbp', 'elselive', 'elsechainlive']
 
 def gen_cases(rng, tier, scale):
     cases = []
@@ -123,6 +127,8 @@ def gen_cases(rng, tier, scale):
     from wsspec import tag as _t, text as _x
     W = [('wF8', [_t('#if t', True), _x('\nb\n'), _t('/if', True), _x('  ')]),
          ('wF11', [_t('v', False, False, True, 'V'), _x('  '), _t('!c', True), _x('  z')]),
+         ('wF11d', [_t('v', False, False, True, 'V'), _x('  '), _t('!-- c --', True), _x('  z')]),
+         ('wF11e', [_t('#if t', True, False, True), _x('\n \n'), _t('!-- c --', True), _x('\t'), _t('/if', True)]),
          ('wF13', [_x('q\r  '), _t('#if t', True), _x('\ry'), _t('/if', True)]),
          ('wF14', [_t('#if t', True, False, True), _x('\n'), _t('v', False, False, False, 'V'), _x('\n foo'), _t('/if', True)])]
     for cid, items in W:
